@@ -825,7 +825,7 @@ def shard_sec(ctx: Ctx) -> None:
         if ctx.out_of_time():
             break
         name = names[it % len(names)]
-        ec = CURVES[name]
+        ec = _custom_curve(name) if name in CUSTOM_CURVES else CURVES[name]
         rc = rec.RefCurve(ec.p, ec._a, ec._b, tuple(ec.G), ec.n, name)
         size = ec.p_size
         # a point by lifting a random x with the reference (both parities)
